@@ -10,4 +10,5 @@ import ParryModel.C19.Theorems
 #print axioms C19.ball_scaled_mem
 #print axioms C19.cylinder_scaled_mem
 #print axioms C19.cone_scaled_mem
+#print axioms C19.hf_cell_covered
 #print axioms C19.circlePoint_on_boundary
